@@ -26,5 +26,7 @@ Mixed == /\ Len(rs) >= 2
          /\ \E i \in DOMAIN rs : rs[i].kind = "closed"
          /\ \E i \in DOMAIN rs : rs[i].kind # "closed" /\ Wraps(rs[i])
          /\ (Len(rs) = 3 => \E i \in DOMAIN rs : rs[i].op = "fallback")
-EmitMix == Mixed => PrintT(<<"REPLAY", ToJson([text |-> D!DisplayExpr(Expr), expect |-> "accept"])>>)
+\* written without comments: the normaliser keeps a closed rule that carries a comment and drops one that does not
+Bare == [rules |-> [i \in DOMAIN rs |-> [rs[i] EXCEPT !.comments = <<>>]]]
+EmitMix == Mixed => PrintT(<<"REPLAY", ToJson([text |-> D!DisplayExpr(Bare), expect |-> "accept"])>>)
 =============================================================================
